@@ -50,5 +50,12 @@ def classify(prog, bind, po):
                 for (pp, oo), vv in bind.items():
                     if vv[0] == key and pp == path and "walruscomp" in c.flags.get(oo, ()):
                         flags.add("walruscomp")
+                # inside a string literal that spans several lines, not on its first line
+                import ast as _ast
+
+                line = c.src.count("\n", 0, off) + 1
+                for n in _ast.walk(c.tree):
+                    if isinstance(n, _ast.JoinedStr) and n.lineno < line <= n.end_lineno:
+                        flags.add("later-line-of-a-multiline-fstring")
                 return "%s:%s%s" % (sc.kind, t[3], "".join("@" + f for f in sorted(flags)))
     return "?"
